@@ -1339,6 +1339,10 @@ class SignEngine:
         self.sign_calls = set(y["sign_calls"])
         self.index_y_calls = set(y["index_y_calls"])
         self.vector_subscript = set(y["vector_subscript"])
+        self.residual_calls = set(y.get("residual_calls", []))
+        self._resvec = {}
+        self._resvec_active = set()
+        self.residual_hits = set()
         self.ctxs = {}
         self._field = {}
         self._param = {}
@@ -1403,6 +1407,75 @@ class SignEngine:
     def is_index_y(self, n):
         return n is not None and is_call(n) and strip_targs(n.get("callee") or "") in self.index_y_calls
 
+    # ---- the residual vector: a vector bound (directly, through a local, a constructor parameter or a
+    # member) to the result of a residual accessor.  In the visit method of a y-carrying observation kind
+    # its element is the residual of that observation, i.e. an internal y quantity.
+    def in_y_visit(self, fn):
+        return fn.name == "visit" and len(fn.params) == 1 and base_type(fn.params[0].get("t")) in self.y_types
+
+    def _resvec_fix(self, key, compute):
+        if key in self._resvec:
+            return self._resvec[key]
+        if key in self._resvec_active:
+            return False
+        self._resvec_active.add(key)
+        try:
+            r = bool(compute())
+        finally:
+            self._resvec_active.discard(key)
+        self._resvec[key] = r
+        return r
+
+    def is_residual_vector(self, fn, n, depth=0):
+        if n is None or depth > 6:
+            return False
+        n = _unwrap(n)
+        k = n.get("k")
+        if is_call(n):
+            if strip_targs(n.get("callee") or "") in self.residual_calls:
+                return True
+            if k in ("CXXConstructExpr", "CXXTemporaryObjectExpr") and len(n.get("c") or []) == 1:
+                return self.is_residual_vector(fn, n["c"][0], depth + 1)       # copy of the vector
+            return False
+        if k == "DeclRefExpr":
+            r = n["ref"]
+            if r.get("dk") == "local":
+                def compute():
+                    for m in fn.walk():
+                        if m.get("k") == "DeclStmt":
+                            for d in m.get("decls", []):
+                                if d.get("decl") == r.get("decl") and d.get("init") is not None:
+                                    return self.is_residual_vector(fn, d["init"], depth + 1)
+                    return False
+                return self._resvec_fix(("L", fn.key, r.get("decl")), compute)
+            if r.get("dk") == "parm":
+                idx = {p["decl"]: i for i, p in enumerate(fn.params)}.get(r.get("decl"))
+                if idx is None:
+                    return False
+
+                def compute():
+                    callers = self.taint.calls_by_key().get(fn.key, [])
+                    hit = False
+                    for caller, call in callers:
+                        args = self.taint.value_args(call)
+                        if idx < len(args) and self.is_residual_vector(caller, args[idx], depth + 1):
+                            hit = True
+                    return hit
+                return self._resvec_fix(("P", fn.key, idx), compute)
+            return False
+        if k == "MemberExpr" and n.get("mk") == "field":
+            owner, name = strip_targs(n.get("owner", "")), n.get("member")
+
+            def compute():
+                for f, rhs in self.taint.field_defs().get((owner, name), []):
+                    if isinstance(rhs, tuple):
+                        continue
+                    if self.is_residual_vector(f, rhs, depth + 1):
+                        return True
+                return False
+            return self._resvec_fix(("F", owner, name), compute)
+        return False
+
     def call_state(self, c, n):
         callee = strip_targs(n.get("callee") or "")
         if callee in self.sign_calls:
@@ -1415,6 +1488,10 @@ class SignEngine:
                 return "Y"
             return "N"
         if callee in self.vector_subscript and n.get("k") == "CXXOperatorCallExpr":
+            if self.residual_calls and self.in_y_visit(c.fn) and \
+                    self.is_residual_vector(c.fn, F.call_object(n) or (n.get("c") or [None, None])[1]):
+                self.residual_hits.add((c.fn.key, n.get('id')))
+                return "Y"
             for a in self.taint.value_args(n):
                 a0 = _unwrap(a)
                 if self.is_index_y(a0):
@@ -1624,6 +1701,9 @@ def run_ysign(ctx, rule="R-YSIGN"):
     ctx.floor(rule, fl.get("restored", 1), n_ok, "y outputs multiplied by the y-sign")
     ctx.floor(rule, fl.get("sibling", 1), n_sib, "visit(Y*)/visit(Ydiff*) sibling obligations")
     ctx.floor(rule, fl.get("dyncast", 1), n_dc, "functions type-testing Y/Ydiff")
+    if eng.residual_calls:
+        ctx.floor(rule, fl.get("residual_elements", 1), len(eng.residual_hits),
+                  "residual-vector elements read in visit(Y*)/visit(Ydiff*) writers (internal y)")
     return {"outputs": n_ok + n_bad, "ok": n_ok, "bad": n_bad, "sibling": n_sib, "dyncast": n_dc, "rounds": rounds}
 
 
